@@ -7,9 +7,14 @@ name=$1; patch=$2; prop=$3; shift 3
 wt=/tmp/mut_$name
 git -C /repo worktree remove --force $wt >/dev/null 2>&1
 git -C /repo worktree add -q --detach $wt HEAD || exit 3
+cp /repo/Cargo.lock $wt/ 2>/dev/null
 if ! git -C $wt apply "$patch"; then echo "PATCH DOES NOT APPLY: $patch"; git -C /repo worktree remove --force $wt; exit 3; fi
 VERIF_REPO=$wt VERIF_EVIDENCE_DIR=/tmp/mut_ev_$name python3 /verif/tools/run_check.py $prop "$@" > /tmp/mut_$name.$prop.log 2>&1
 rc=$?
 echo "== $name $prop exit=$rc"; grep -E 'VIOLATION|KNOWN-FINDING|INCONCLUSIVE|failing check' /tmp/mut_$name.$prop.log | cut -c1-300
+if [ -d /verif/seeded/$name ]; then
+  { echo "check: python3 tools/run_check.py $prop $* (VERIF_REPO = scratch worktree of /repo HEAD + patch.diff)"; echo "exit: $rc";
+    grep -E 'VIOLATION|failing check|INCONCLUSIVE' /tmp/mut_$name.$prop.log | sed "s#/tmp/mut_ev_$name/#<scratch evidence>/#" | cut -c1-300; echo; } >> /verif/seeded/$name/check_result.txt
+fi
 git -C /repo worktree remove --force $wt
 exit $rc
